@@ -148,8 +148,19 @@ func errKind(err error) string {
 // c14ServeCase runs the scenario and returns the canonical real output (one part per connection)
 // and the oracle's verdict ("" = the property held).
 func c14ServeCase(proto string, gmp int, timing, split string, conns [][]*c14Req) (string, string) {
-	real, verdict, _ := c14ServeCaseX(proto, gmp, timing, split, conns)
+	real, verdict, _ := c14ServeCaseRetry(proto, gmp, timing, split, conns)
 	return real, verdict
+}
+
+// c14ServeCaseRetry: a reply that missed the watchdog must miss it twice to count (the machine
+// may be busy; the defects this suite is for lose replies every time).
+func c14ServeCaseRetry(proto string, gmp int, timing, split string, conns [][]*c14Req) (string, string, [][]*c14Reply) {
+	real, verdict, replies := c14ServeCaseX(proto, gmp, timing, split, conns)
+	if strings.Contains(verdict, "within the watchdog") {
+		Stat("srv:watchdog-retry")
+		return c14ServeCaseX(proto, gmp, timing, split, conns)
+	}
+	return real, verdict, replies
 }
 
 // c14ServeCaseX also returns the parsed replies per connection. timing "seq": the connections are
